@@ -44,7 +44,25 @@ var Alphabet = []Letter{
 	{"Snull", `{"__typename":"Single","id":null}`, false},
 	{"Nbad", `{"__typename":"Nested","owner":"x","slot":1}`, false},
 	{"MnoK", `{"__typename":"Multi"}`, false},
+	// key VALUES of the wrong JSON type (_Any is not validated): object / list where ID! /
+	// String! is expected, string / bool where Int! is expected; single, multi and nested keys
+	{"MidObj", `{"__typename":"Multi","id":{"a":1}}`, false},
+	{"SidObj", `{"__typename":"Single","id":{"a":1}}`, false},
+	{"MRidLst", `{"__typename":"MultiReq","id":["1"],"weight":5}`, false},
+	{"MTskuObj", `{"__typename":"MultiTwo","sku":{"a":1}}`, false},
+	{"NslotStr", `{"__typename":"Nested","owner":{"id":"1"},"slot":"x"}`, false},
+	{"TskuLst", `{"__typename":"TwoKeys","sku":["S2"]}`, false},
+	{"NidLst", `{"__typename":"Nested","owner":{"id":["1"]},"slot":3}`, false},
+	{"MidLst", `{"__typename":"Multi","id":["1"]}`, false},
+	// a number for ID! is valid; bool for ID! and number for String! are coerced by gqlgen's
+	// lenient scalars (either answer accepted, see lenientLeaf)
+	{"SidNum", `{"__typename":"Single","id":7}`, true},
+	{"MidBool", `{"__typename":"Multi","id":true}`, false},
+	{"MTskuNum", `{"__typename":"MultiTwo","sku":5}`, false},
 }
+
+// CoreK: the letters before the wrong-typed key values.
+const CoreK = 19
 
 func letter(name string) (Letter, bool) {
 	for _, l := range Alphabet {
